@@ -11,7 +11,14 @@
       key (inline, ADD, or re-pointed) to a table that does not exist at that moment, ALTER of a
       missing table, DROP of a missing table, DROP of a table with a live foreign key from
       another table, DROP FOREIGN KEY (or re-pointing) of a key that is not live.
-    [adds x] / [drops x]: the table name created / dropped by change x (SortReplay.v).
+    Table identity (round 3): a table is the pair (schema, name) -- [t_schema], [t_name]; two schemas may
+      hold tables of the same name.  The model reads the name alone or the pair exactly where the Go code
+      does: [dependencies], [isDropped], [table] and the index map of [sortMap] go by T.Name, [dependsOn]
+      by SameTable (name and schema).  The catalogue keys tables by [qn t] = an injective code of the pair
+      (SortReplay.qn_inj); WF / consistent are stated over [qn].  No theorem assumes that names are
+      distinct across schemas: C04_safe & co. hold for colliding names (a name collision can only add
+      edges to the name graph of sortMap, i.e. force the detach branch or a finer order).
+    [adds x] / [drops x]: the table (its [qn]) created / dropped by change x (SortReplay.v).
     [WF cs]: what the differ can emit (SortProofs.v): every table in at most one of
       add/drop/modify; object ids determine names; a dropped table's keys name it as child;
       declared keys do not point at dropped tables; the keys of a dropped table have distinct
@@ -97,6 +104,20 @@ Theorem C04_safe_dialects : forall cs c,
     (exists c3, replay (flat_map pg_sources l) c = Some c3).
 Proof. exact plan_dialect_safe. Qed.
 
+(** 4. Schema-level changes in the list (round 3).  state.plan of both planners runs topLevel first: the
+    AddSchema / DropSchema / ModifySchema changes of the list -- each once, in order -- become the first
+    statements of the plan, the table changes -- each once, in order -- are what DetachCycles / SortChanges
+    get.  Nothing is said here about the Go code leaving its argument alone (not expressible for a pure
+    function): that clause ("the same slice value planned again gives the same plan") is judged on the Go
+    side only (oracle classes replan-differs, input-mutated, schema-change-not-once). *)
+Theorem C04_toplevel_once : forall l, topLevel l = (schemas_of l, tables_of l).
+Proof. exact topLevel_spec. Qed.
+
+Theorem C04_safe_with_schemas : forall l c,
+  WF (tables_of l) -> consistent c (tables_of l) ->
+  exists r c', plan_all l = Some (schemas_of l, r) /\ plan (tables_of l) = POk r /\ replay r c = Some c'.
+Proof. exact plan_all_safe. Qed.
+
 Print Assumptions C04_total.
 Print Assumptions C04_total_parts.
 Print Assumptions C04_once.
@@ -106,6 +127,8 @@ Print Assumptions C04_safe.
 Print Assumptions C04_safe_any_tiebreak.
 Print Assumptions C04_acyclic_sort_is_partition.
 Print Assumptions C04_safe_dialects.
+Print Assumptions C04_toplevel_once.
+Print Assumptions C04_safe_with_schemas.
 
 (** Non-vacuity. *)
 (* C04_total / C04_once: a 3-cycle of created tables is planned (6 changes out of 3). *)
@@ -113,12 +136,12 @@ Example C04_total_ex : plan c3_cs = POk c3_plan /\ length c3_plan = 6.
 Proof. vm_compute. split; reflexivity. Qed.
 
 Example C04_once_ex :
-  plan sr_cs = POk sr_plan /\ flat_map adds sr_plan = [0] /\ flat_map drops sr_plan = [1; 2].
+  plan sr_cs = POk sr_plan /\ flat_map adds sr_plan = ktabs [0] /\ flat_map drops sr_plan = ktabs [1; 2].
 Proof. vm_compute. repeat split; reflexivity. Qed.
 
 Example C04_once_fks_ex :
-  plan c3_cs = POk c3_plan /\ flat_map decl c3_cs = [(0, 21, 1); (1, 22, 2); (2, 20, 0)] /\
-  flat_map decl c3_plan = [(0, 21, 1); (1, 22, 2); (2, 20, 0)].
+  plan c3_cs = POk c3_plan /\ flat_map decl c3_cs = kfks [(0, 21, 1); (1, 22, 2); (2, 20, 0)] /\
+  flat_map decl c3_plan = kfks [(0, 21, 1); (1, 22, 2); (2, 20, 0)].
 Proof. vm_compute. repeat split; reflexivity. Qed.
 
 Example C04_once_wf_ex : WF sr_cs /\ plan sr_cs = POk sr_plan.
@@ -128,14 +151,14 @@ Proof. exact (conj sr_wf (proj1 (proj2 sr_runs))). Qed.
 Example C04_safe_ex_3cycle :
   WF c3_cs /\ consistent c3_cat c3_cs /\
   sortMap c3_cs = SMCycle /\ plan c3_cs = POk c3_plan /\
-  replay c3_plan c3_cat = Some (mkCat [2; 1; 0] [(0, 21, 1); (1, 22, 2); (2, 20, 0)]).
+  replay c3_plan c3_cat = Some (kcat [2; 1; 0] [(0, 21, 1); (1, 22, 2); (2, 20, 0)]).
 Proof. exact (conj c3_wf (conj c3_cons c3_runs)). Qed.
 
 (* cycle branch: a created self-referencing table, a dropped self-referencing table in a 2-cycle of drops *)
 Example C04_safe_ex_selfref :
   WF sr_cs /\ consistent sr_cat sr_cs /\
   sortMap sr_cs = SMCycle /\ plan sr_cs = POk sr_plan /\
-  replay sr_plan sr_cat = Some (mkCat [0] [(0, 20, 0)]).
+  replay sr_plan sr_cat = Some (kcat [0] [(0, 20, 0)]).
 Proof. exact (conj sr_wf (conj sr_cons sr_runs)). Qed.
 
 (* cycle branch, the former counterexample: SortChanges moves CREATE TABLE 1 in front of the ALTER of
@@ -147,14 +170,14 @@ Example C04_safe_ex_repoint_cycle :
       AddTable (des 1) [];
       ModifyTable (des 1) [AddFK (mkFK 21 (des 1) (des 0))] ] /\
   plan cx_cs = POk cx_plan /\
-  replay cx_plan cx_cat = Some (mkCat [1; 0; 2] [(0, 5, 1); (1, 21, 0)]).
+  replay cx_plan cx_cat = Some (kcat [1; 0; 2] [(0, 5, 1); (1, 21, 0)]).
 Proof. exact (conj cx_wf (conj cx_cons cx_runs)). Qed.
 
 (* cycle-free branch: a re-pointed key to a created table, a chain, a drop *)
 Example C04_safe_ex_chain :
   WF ch_cs /\ consistent ch_cat ch_cs /\
   sortMap ch_cs = SMOk [2; 1; 0] /\ plan ch_cs = POk ch_plan /\
-  replay ch_plan ch_cat = Some (mkCat [1; 2; 0] [(1, 22, 2); (0, 5, 1)]).
+  replay ch_plan ch_cat = Some (kcat [1; 2; 0] [(1, 22, 2); (0, 5, 1)]).
 Proof. exact (conj ch_wf (conj ch_cons ch_runs)). Qed.
 
 (* the dialect plans of the chain example: the re-pointed key becomes DROP then ADD *)
@@ -164,11 +187,27 @@ Example C04_safe_ex_dialects :
       ModifyTable (des 0) [DropFK (mkFK 5 (cur 0) (cur 3))];
       ModifyTable (des 0) [AddFK (mkFK 5 (des 0) (des 1))];
       DropTable (cur 3) [] ] /\
-  replay (flat_map mysql_sources ch_plan) ch_cat = Some (mkCat [1; 2; 0] [(1, 22, 2); (0, 5, 1)]) /\
-  replay (flat_map pg_sources ch_plan) ch_cat = Some (mkCat [1; 2; 0] [(1, 22, 2); (0, 5, 1)]).
+  replay (flat_map mysql_sources ch_plan) ch_cat = Some (kcat [1; 2; 0] [(1, 22, 2); (0, 5, 1)]) /\
+  replay (flat_map pg_sources ch_plan) ch_cat = Some (kcat [1; 2; 0] [(1, 22, 2); (0, 5, 1)]).
 Proof. vm_compute. repeat split; reflexivity. Qed.
 
 Example C04_safe_ex_tiebreak : detach_spec ch_cs [AddTable (des 2) []; DropTable (cur 3) [];
     AddTable (des 1) [mkFK 22 (des 1) (des 2)];
     ModifyTable (des 0) [ModifyFK (mkFK 5 (cur 0) (cur 3)) (mkFK 5 (des 0) (des 1))]].
 Proof. exact ch_tiebreak. Qed.
+
+(* round 3 -- C04_safe with colliding names: s1.t1 <-> s1.t2 dropped (2-cycle of drops) while the namesake
+   s2.t1 is altered earlier in the list and s2.t2 is created.  isDropped (by name) calls the altered s2.t1
+   dropped, SameTable does not confuse the two; the plan replays on the catalogue keyed by (schema, name). *)
+Example C04_safe_ex_two_schemas :
+  WF tw_cs /\ consistent tw_cat tw_cs /\
+  sortMap tw_cs = SMCycle /\ plan tw_cs = POk tw_plan /\
+  replay tw_plan tw_cat = Some (qcat [(2, 2); (2, 1)] [((2, 1), 23, (2, 2))]) /\
+  isDropped tw_cs (tq 2 1 5) = true /\ same_table (tq 2 1 5) (tq 1 1 0) = false.
+Proof. exact (conj tw_wf (conj tw_cons tw_runs)). Qed.
+
+(* C04_toplevel_once / C04_safe_with_schemas: CREATE SCHEMA s2 and ALTER SCHEMA s1 in front of the same change set *)
+Example C04_safe_with_schemas_ex :
+  plan_all (GSchema (AddSchema 2) :: GSchema (ModifySchema 1) :: map GTable tw_cs)
+    = Some ([AddSchema 2; ModifySchema 1], tw_plan).
+Proof. vm_compute. reflexivity. Qed.
